@@ -93,6 +93,8 @@ func NewServerDnsListener(topDomain string, comm ServerCommunicator) *ServerDnsL
 					log.Infof("Removing stale user connection for user %d (%s)", u.UserId, u.remoteAddress)
 					srv.connections[u.UserId] = nil
 					srv.oldConnections[u.UserId] = u
+					// The peer is gone: wake up a Read that is waiting for data
+					u.in.Close()
 				}
 			}
 
@@ -169,6 +171,8 @@ func (s *ServerDnsListener) closeConnection(u *userConnection) error {
 	s.connections[u.UserId] = nil
 	s.oldConnections[u.UserId] = u
 	u.closed = true
+	// Nothing more will arrive: wake up a Read that is waiting for data
+	u.in.Close()
 
 	return nil
 }
